@@ -21,24 +21,30 @@ from harness.coqio import lit, flit, Raw
 
 META = {
     'level': 'proof',
-    'technique': 'Coq proof over translated restraint predicates, bound formulas and guard skeleton; differential correspondence of the distance-restraint model; judged gen_coords runs with generated build files',
+    'technique': 'Coq proof over translated restraint predicates, bound formulas and guard skeleton; Coq proof (induction along the ring) that the depth-first tree of a ring of any size ends at the neighbour of the root across the closing edge; differential correspondence of the distance-restraint and search-tree models; judged gen_coords runs with generated build files',
     'gen_deps': ['Gen_walk', 'Gen_restraints', 'Gen_walk_skel', 'Gen_linalg'],
-    'eval_deps': ['theories/gen/Gen_walk_F.vo', 'theories/gen/Gen_restraints_F.vo', 'theories/model/Restraints.vo'],
+    'eval_deps': ['theories/gen/Gen_walk_F.vo', 'theories/gen/Gen_restraints_F.vo', 'theories/model/Restraints.vo', 'theories/model/Dfs.vo'],
     'level_text': ("Theorems in Coq (Props/C07.v) over the text regenerated from the source on every run: a point accepted by the "
                    "sphere / cylinder / rectangle predicate satisfies the declared in/out restraint; an accepted growth step lies on "
                    "the reference side of the plane within the reference angle; positions are added only under the geometric, "
                    "milestone and direction tests; for every tree path the restrained residue carries the window "
                    "[d - tol, d + tol + avg] and a position accepted against it lies inside; cyclic molecules are traversed depth "
-                   "first; arange samples lie in [step, contour length). The distance-restraint model, the milestone test and the "
-                   "ring closing pair (rings 3-12, all roots: bounded, a test) are tied to the code by correspondence, and complete "
-                   "gen_coords runs with generated build files are judged restraint by restraint. Not proved: that a depth-first "
-                   "tree of a ring of arbitrary size ends next to its root (checked for sizes 3-12 only)."),
+                   "first, and (C07_ring_closing_pair, by induction along the ring, model/Dfs.v) for a ring of EVERY size n >= 3, every "
+                   "node labelling, every order of the adjacency lists and every root the depth-first search tree is the path through "
+                   "all residues that leaves the root by its first-listed neighbour and ends at its second-listed one, so the pair "
+                   "_initialize_cylces restrains (first edge's source, last edge's target; text regenerated from the source) is joined "
+                   "by the one ring edge the tree leaves out; arange samples lie in [step, contour length). The distance-restraint "
+                   "model, the milestone test, the depth-first tree model (networkx dfs_tree on random connected graphs and on rings "
+                   "3-12 with every root, edge order as list(tree.edges)) and the restrained cycle pair are tied to the code by "
+                   "correspondence, and complete gen_coords runs with generated build files (cyclic molecules with additional "
+                   "build-file restraints included) are judged restraint by restraint and ring edge by ring edge."),
     'level_note': ("Trusted: Coq kernel, translator/extractors, real-number axioms (Print Assumptions). arccos/degrees enter "
                    "is_restricted as an opaque argument (the angle); networkx dfs_tree/bfs_tree/lowest_common_ancestor are library "
                    "contracts validated by the runs. Several [ rw_restriction ] lines per molecule are outside the generator until "
                    "finding F8 (C18) is decided."),
     'rule': ("kernel cases = points at relative 1e-6 on both sides of every restraint surface plus random ones; model cases = random "
-             "trees x (target, ref) pairs x distances; ring cases = every ring size 3-12 x every root x shuffled adjacency; "
+             "trees x (target, ref) pairs x distances; ring cases = every ring size 3-12 x every root x shuffled adjacency; search-tree cases = "
+             "random connected graphs of 2-9 residues (trees, rings with tails, several cycles) x random roots; "
              "end-to-end cases = generated topologies x generated build files (all restraint kinds); non-trivial = a case in which "
              "a restraint selects at least one generated residue; distinct by full input"),
 }
@@ -210,6 +216,34 @@ def ring_cases(ctx):
     from collections import defaultdict
     rng = ctx.rng
     count = 0
+    dfs_exprs, dfs_impl = [], []
+
+    def dfs_case(meta, nnodes):
+        """model/Dfs.v on the implementation's own adjacency lists vs the real search tree"""
+        tbl = '[' + '; '.join(f"({lit(int(v))}, {lit([int(u) for u in meta[v]])})" for v in meta.nodes) + ']'
+        root = meta.root if meta.root is not None else list(meta.nodes)[0]
+        dfs_exprs.append(f"(tree_edges (adj_of {tbl}) {nnodes}%nat {lit(int(root))}, cycle_pair (adj_of {tbl}) {nnodes}%nat {lit(int(root))})")
+        te = [(int(a), int(b)) for a, b in meta.search_tree.edges]
+        dfs_impl.append((te, (te[0][0], te[-1][1]) if te else None))
+    # depth-first trees of arbitrary connected residue graphs (trees, rings with tails, several cycles)
+    for _ in range(ctx.n(40, 400)):
+        n = rng.randint(2, 9)
+        keys = rng.sample(range(0, 3 * n), n)
+        edges = [(keys[rng.randrange(i)], keys[i]) for i in range(1, n)]
+        for _ in range(rng.choice([0, 0, 1, 2])):
+            a, b = rng.sample(keys, 2)
+            if (a, b) not in edges and (b, a) not in edges:
+                edges.append((a, b))
+        rng.shuffle(edges)
+        g = nx.Graph()
+        for k in rng.sample(keys, n):
+            g.add_node(k, resname='A', resid=k + 1)
+        g.add_edges_from(edges)
+        meta = MetaMolecule(g)
+        meta.dfs = True
+        meta.root = rng.choice(keys)
+        dfs_case(meta, n)
+        ctx.case(('dfs', tuple(meta.nodes), tuple(edges), meta.root), nontrivial=len(edges) >= n)
     for n in range(3, 13):
         for root_pos in range(n):
             for rep in range(ctx.n(1, 4)):
@@ -234,6 +268,8 @@ def ring_cases(ctx):
                 gc._initialize_cylces(Top, ['ring'], 0.0)
                 pairs = list(Top.distance_restraints[('ring', 0)].items())
                 count += 1
+                dfs_case(meta, n)
+                dfs_impl[-1] = (dfs_impl[-1][0], tuple(int(x) for x in pairs[0][0]) if pairs else None)
                 tree_edges = {frozenset(e) for e in meta.search_tree.edges}
                 ring_edges = {frozenset(e) for e in edges}
                 closing = ring_edges - tree_edges
@@ -245,6 +281,25 @@ def ring_cases(ctx):
                                   {'ring': n, 'order': order, 'edges': edges, 'restrained': [list(p[0]) for p in pairs],
                                    'closing': sorted(map(sorted, closing))})
     ctx.extra['ring_cases'] = {'cases': count, 'sizes': '3..12', 'exhaustive_over_roots': True}
+    try:
+        res = core.coq_eval_cases(ctx, 'dfs', "From PV Require Import Dfs.\nOpen Scope Z_scope.\n", dfs_exprs, chunk=120)
+    except core.CoqEvalError as exc:
+        ctx.note(str(exc)[:800])
+        ctx.broken.append('correspondence:search tree vs model/Dfs.v (evaluation failed)')
+        return
+    mism = 0
+    for (te, pair), r in zip(dfs_impl, res):
+        mte = [tuple(e) for e in r[0]]
+        from harness.coqio import unsome
+        mpair = unsome(r[1])
+        mpair = None if mpair is None else tuple(mpair)
+        if mte != te or (pair is not None and mpair != tuple(pair)):
+            mism += 1
+            if mism <= 3:
+                ctx.note(f"correspondence (dfs): model edges {mte} pair {mpair} != search tree {te} pair {pair}")
+    ctx.extra['dfs_correspondence'] = {'cases': len(dfs_impl), 'mismatches': mism}
+    if mism:
+        ctx.broken.append('correspondence:depth-first search tree / restrained cycle pair vs model/Dfs.v')
 
 
 # ------------------------------------------------------------------ (d) end-to-end with build files
